@@ -176,7 +176,7 @@ func Decode(s string) *World {
 func (m *ModSpec) KeyUniverse() []string {
 	set := map[string]bool{}
 	for _, o := range m.Ops {
-		if o.Kind == "del" {
+		if o.Kind == "del" || o.Kind == "burst" {
 			continue
 		}
 		if o.KeyMod == 0 {
